@@ -156,7 +156,7 @@ Section ComposeDyn.
   (* obj.add_trait: the property's handler is called iff one of its registrations matches the object's trait_added.
      A Property's own graphs never do (they name the dependency, the trait_added node is the maintainers' extra graph), so
      [touched_by] is false for them and the step is faithful exactly when the getter's view does not depend on whether the
-     optional dependency is defined -- see design.d/C12.md, candidate finding F24. *)
+     optional dependency is defined (adjudicated as outside property C12, see design.d/C12.md). *)
   Theorem add_trait_is_faithful_iff_matched :
     forall (h hrun : heap) (R : list reg) (H : hooks) (s : C09.Model.state) x f H' calls (k : key),
       dinv h H R -> wfH H -> dead_handlers s = [] -> dead_objs s = [] ->
